@@ -39,7 +39,7 @@ func (c *ConfirmCache) Push(data *BlockConfirmData) {
 	c.cache[data.Height][data.Hash] = append(c.cache[data.Height][data.Hash], data)
 
 	if len(c.cache) > 10240 {
-		c.Clear(^uint32(0))
+		c.clearLocked(^uint32(0))
 	}
 }
 
@@ -66,7 +66,11 @@ func (c *ConfirmCache) Pop(height uint32, hash common.Hash) []*BlockConfirmData 
 func (c *ConfirmCache) Clear(height uint32) {
 	c.lock.Lock()
 	defer c.lock.Unlock()
+	c.clearLocked(height)
+}
 
+// clearLocked is Clear for callers that already hold c.lock
+func (c *ConfirmCache) clearLocked(height uint32) {
 	for h, _ := range c.cache {
 		if h <= height {
 			delete(c.cache, h)
@@ -137,7 +141,7 @@ func (c *BlockCache) Add(block *types.Block) {
 	}
 
 	if len(c.cache) > 10240 {
-		c.Clear(^uint32(0))
+		c.clearLocked(^uint32(0))
 	}
 }
 
@@ -158,7 +162,11 @@ func (c *BlockCache) Iterate(callback func(*types.Block) bool) {
 func (c *BlockCache) Clear(height uint32) {
 	c.lock.Lock()
 	defer c.lock.Unlock()
+	c.clearLocked(height)
+}
 
+// clearLocked is Clear for callers that already hold c.lock
+func (c *BlockCache) clearLocked(height uint32) {
 	index := -1
 	for i, item := range c.cache {
 		if item.Height <= height {
